@@ -12,6 +12,7 @@
 -/
 import Oracle.Basic
 import S2.Interval
+import Oracle.C19Cap
 namespace Oracle.C19
 open Oracle S2 S2.IvlF64
 
@@ -306,6 +307,6 @@ def handle (op : String) (args res : List String) : Option String :=
     let mdl := showF64 (F64.remainder x y)
     let isNaNTok (t : String) := match parseF64? t with | some v => v.isNaN | none => false
     pure (if isNaNTok mdl && (res.head?.map isNaNTok).getD false then "ok" else verdict [mdl] res)
-  | _, _ => none
+  | _, _ => Oracle.C19Cap.handle op args res   -- caps: ops `cap`, `chord`
 
 end Oracle.C19
